@@ -35,6 +35,8 @@ import ast
 from fractions import Fraction
 from typing import Dict, List, Optional
 
+from . import webs
+
 F = Fraction
 OP = "\x00v:"   # prefix of a name that stays a variable
 
@@ -76,8 +78,11 @@ class Normaliser:
         self.n_eff = 0
         self.decided: Dict[str, bool] = {}   # path condition: dump of a test -> its value on the current path
         self.vnum: Dict[str, tuple] = {}     # variables that stay variables are numbered in the order they are first bound
+        fn = inline_procedures(fn, self.helpers, self.methods) if depth == 0 else fn
+        fn = webs.split(fn)
         fn = prepass(fn)
         self.fn = fn
+        self.scope = _scope_names(fn)
         self.captured = set()   # names read inside nested defs/classes: always emitted as bindings
         self.mutated = set()    # local names whose object is mutated (stores into it, mutator method calls)
         for n in ast.walk(fn):
@@ -88,9 +93,17 @@ class Normaliser:
             if isinstance(n, (ast.FunctionDef, ast.AsyncFunctionDef, ast.ClassDef)) and n is not fn:
                 if isinstance(n, ast.FunctionDef) and self.helpers.get(n.name) is not None and self._same_def(self.helpers[n.name], n):
                     continue   # a helper that exists on this side only: its calls are inlined
-                for x in ast.walk(n):
-                    if isinstance(x, ast.Name):
-                        self.captured.add(x.id)
+                seen = set()
+
+                def names_of(node, lvl=0):
+                    for x in ast.walk(node):
+                        if isinstance(x, ast.Name):
+                            self.captured.add(x.id)
+                            h = self.helpers.get(x.id)
+                            if h is not None and x.id not in seen and lvl < 4 and _defined_in(fn, h):
+                                seen.add(x.id)
+                                names_of(h, lvl + 1)   # the nested function reads what a one-sided helper it calls reads
+                names_of(n)
         for n in ast.walk(fn):
             if isinstance(n, (ast.Assign, ast.AugAssign, ast.AnnAssign)):
                 tg = n.targets if isinstance(n, ast.Assign) else [n.target]
@@ -177,8 +190,19 @@ class Normaliser:
     def inline_ast(self, helper, call, env, bound, bound_self=None):
         """the value of a call of a loop-free helper as an expression (None when the helper is not of that simple kind)"""
         a = helper.args
-        if a.vararg or a.kwarg or a.kwonlyargs or a.posonlyargs or bound:
+        if a.vararg or a.kwarg or a.kwonlyargs or a.posonlyargs:
             return None
+        free = _free_names(helper)
+        if free & bound:
+            return None   # a name the helper reads is rebound by the comprehension / lambda the call sits in
+        if not _defined_in(self.fn, helper) and (free & self.scope):
+            return None   # a global the helper reads has the name of a local of the caller: substitution would capture it
+        inner = set()     # names bound by comprehensions / lambdas inside the helper: an argument mentioning one of them would be captured
+        for x in ast.walk(helper):
+            if isinstance(x, ast.comprehension):
+                inner |= _bound_names(x.target)
+            elif isinstance(x, ast.Lambda):
+                inner |= {p_.arg for p_ in x.args.posonlyargs + x.args.args + x.args.kwonlyargs}
         for x in ast.walk(helper):
             if x is not helper and isinstance(x, (ast.For, ast.While, ast.Try, ast.With, ast.Yield, ast.YieldFrom, ast.FunctionDef, ast.AsyncFunctionDef, ast.Raise, ast.Assert)):
                 return None
@@ -206,6 +230,8 @@ class Normaliser:
                 if p not in defaults:
                     return None
                 given[p] = defaults[p]
+        if inner and any(isinstance(x, ast.Name) and x.id in inner for v in given.values() for x in ast.walk(v)):
+            return None
         henv.update(given)
         self.depth += 1
         try:
@@ -363,6 +389,8 @@ class Normaliser:
         a = helper.args
         if a.vararg or a.kwarg or a.kwonlyargs or a.posonlyargs:
             return None
+        if not _defined_in(self.fn, helper) and (_free_names(helper) & self.scope):
+            return None
         for x in ast.walk(helper):
             if x is not helper and isinstance(x, (ast.For, ast.While, ast.Try, ast.With, ast.Yield, ast.YieldFrom, ast.FunctionDef, ast.AsyncFunctionDef)):
                 return None
@@ -423,9 +451,11 @@ class Normaliser:
             return True, ("cmpchain", tuple(parts))
         if isinstance(n, ast.BoolOp):
             parts = [self.test(v, benv) for v in n.values]
-            if all(not p_ for p_, _ in parts):
+            # De Morgan: of a connective and its dual the one with fewer negated operands is kept (`and` on a tie)
+            n_neg = sum(1 for p_, _ in parts if not p_)
+            if 2 * n_neg > len(parts) or (2 * n_neg == len(parts) and isinstance(n.op, ast.Or)):
                 dual = "Or" if isinstance(n.op, ast.And) else "And"
-                return False, ("bool", dual, tuple(t_ for _, t_ in parts))
+                return False, ("bool", dual, tuple(("not", t_) if p_ else t_ for p_, t_ in parts))
             return True, ("bool", type(n.op).__name__, tuple(t_ if p_ else ("not", t_) for p_, t_ in parts))
         f = self.ex(n, benv)
         if isinstance(f, tuple) and f and f[0] == "not":
@@ -627,6 +657,14 @@ class Normaliser:
         ea, eb = list(ea), list(eb)
         if ea == eb:
             return ea
+        # what both arms end with happens after the if:  if t: A; S  else: B; S   ==   (if t: A else: B); S
+        k = 0
+        while k < len(ea) and k < len(eb) and ea[len(ea) - 1 - k] == eb[len(eb) - 1 - k]:
+            k += 1
+        if k:
+            tail = ea[len(ea) - k:]
+            ea, eb = ea[:len(ea) - k], eb[:len(eb) - k]
+            return self.mk_if(t, ea, eb) + tail
         if len(ea) == 1 and len(eb) == 1 and ea[0][0] == "return" and eb[0][0] == "return" and self.boolish(t):
             T, Fa = ("k", "bool", "True"), ("k", "bool", "False")
             if (ea[0][1], eb[0][1]) == (T, Fa):
@@ -649,7 +687,10 @@ class Normaliser:
         exprs = [self.apply_decided(e) for e in exprs]
         ife = self.find_ifexp(exprs)
         if ife is None:
-            return [make([self.exo(e, {}) for e in exprs])]
+            made = make([self.exo(e, {}) for e in exprs])
+            if made[0] == "bind" and made[1] == made[2]:
+                return []   # `x = x` does nothing
+            return [made]
         key, _ = self.tkey(ife.test)
         _, t = self.test(ife.test, {})
         a = self.under(key, True, lambda: self.emit(kind, exprs, make))    # the positive core holds
@@ -800,13 +841,14 @@ class Normaliser:
 
     @staticmethod
     def block_local(holder, nm) -> bool:
-        """`nm` is bound exactly once inside `holder`, by a plain assignment in some statement list, and every other occurrence of it inside
-        `holder` is a read in a later statement of that same list"""
+        """every binding of `nm` inside `holder` is a plain assignment in some statement list, whose value does not mention `nm`; every read of `nm`
+        sits in a later statement of that same list before the next binding of `nm` in that list; no binding is nested inside the statements another
+        binding owns.  (Each binding then is a temporary of its own: which one a read sees does not depend on the path taken.)"""
         binds = []
 
         def scan(stmts):
             for i, st in enumerate(stmts):
-                if isinstance(st, ast.Assign) and any(isinstance(x, ast.Name) and x.id == nm for t in st.targets for x in ast.walk(t)):
+                if isinstance(st, ast.Assign) and any(isinstance(x, ast.Name) and x.id == nm and isinstance(x.ctx, ast.Store) for t in st.targets for x in ast.walk(t)):
                     binds.append((stmts, i, st))
                 for fld in ("body", "orelse", "finalbody"):
                     sub = getattr(st, fld, None)
@@ -816,18 +858,34 @@ class Normaliser:
                     for h in st.handlers:
                         scan(h.body)
         scan(holder.body + getattr(holder, "orelse", []))
-        if len(binds) != 1:
+        if not binds:
             return False
-        stmts, i, st = binds[0]
-        if any(isinstance(x, ast.Name) and x.id == nm for x in ast.walk(st.value)):
-            return False
-        later = {id(x) for st2 in stmts[i + 1:] for x in ast.walk(st2)}
-        own = {id(x) for t in st.targets for x in ast.walk(t)}
+        owned, own_targets, bind_stmt_ids = set(), set(), {id(b[2]) for b in binds}
+        for stmts, i, st in binds:
+            if any(isinstance(x, ast.Name) and x.id == nm for x in ast.walk(st.value)):
+                return False
+            if not all(isinstance(t, ast.Name) for t in st.targets) and len(binds) > 1:
+                return False   # several webs: only plain `nm = e` bindings
+            j = len(stmts)
+            for k in range(i + 1, len(stmts)):
+                if id(stmts[k]) in bind_stmt_ids:
+                    j = k
+                    break
+            rng = stmts[i + 1:j]
+            for st2 in rng:
+                for x in ast.walk(st2):
+                    if id(x) in bind_stmt_ids:
+                        return False   # another binding nested inside the statements this one owns
+                    owned.add(id(x))
+            own_targets |= {id(x) for t in st.targets for x in ast.walk(t) if isinstance(x, ast.Name) and isinstance(x.ctx, ast.Store)}
+            if any(isinstance(x, ast.Name) and x.id == nm and isinstance(x.ctx, ast.Load) for t in st.targets for x in ast.walk(t)):
+                return False   # nm = ... together with a store through nm in one statement
         for x in ast.walk(holder):
-            if isinstance(x, ast.Name) and x.id == nm and id(x) not in later and id(x) not in own:
-                return False
-            if isinstance(x, ast.Name) and x.id == nm and isinstance(x.ctx, ast.Store) and id(x) not in own:
-                return False
+            if isinstance(x, ast.Name) and x.id == nm:
+                if id(x) in own_targets:
+                    continue
+                if isinstance(x.ctx, ast.Store) or id(x) not in owned:
+                    return False
         return True
 
     def block(self, stmts, env, cont=()):
@@ -1142,9 +1200,14 @@ class Normaliser:
 class _Prepass(ast.NodeTransformer):
     """loops that only build a list / dict, append every item, or look for a witness are rewritten into the equivalent expression form"""
 
+    def __init__(self, nonneg=frozenset(), leaking=frozenset()):
+        self.nonneg = nonneg   # names that evidently hold a non-negative int (index of an enumerate loop that is never rebound)
+        self.leaking = leaking  # loop variables that are read outside the body of a loop that binds them
+
     def _stmts(self, body):
         out = []
         i = 0
+        body = [_setdefault_as_if(s) for s in body]
         # pre-order: an empty container initialised right before an if whose arms fill it moves into the arms
         pre = []
         k = 0
@@ -1165,7 +1228,7 @@ class _Prepass(ast.NodeTransformer):
         flat = []
         for s in body:
             flat.extend(s if isinstance(s, list) else [s])
-        body = flat
+        body = [_merge_if_arms(s) for s in flat]
         while i < len(body):
             s = body[i]
             nxt = body[i + 1] if i + 1 < len(body) else None
@@ -1193,6 +1256,15 @@ class _Prepass(ast.NodeTransformer):
                     out.append(c)
                     i += 2
                     continue
+            # for t in it: if c: break    else: ELSE      ->   if not any(c for t in it): ELSE
+            if isinstance(s, ast.For) and s.orelse and len(s.body) == 1 and isinstance(s.body[0], ast.If) and not s.body[0].orelse \
+                    and len(s.body[0].body) == 1 and isinstance(s.body[0].body[0], ast.Break) \
+                    and not (_bound_names(s.target) & self.leaking):
+                gen = ast.GeneratorExp(elt=s.body[0].test, generators=[ast.comprehension(target=s.target, iter=s.iter, ifs=[], is_async=0)])
+                anyc = ast.Call(func=ast.Name(id="any", ctx=ast.Load()), args=[gen], keywords=[])
+                out.append(ast.fix_missing_locations(ast.copy_location(ast.If(test=ast.UnaryOp(op=ast.Not(), operand=anyc), body=s.orelse, orelse=[]), s)))
+                i += 1
+                continue
             # for t in it: L.append(e)   ->  L.extend(e for t in it)      (L.extend(it) when e is t)
             if isinstance(s, ast.For):
                 c = _loop_as_extend(s)
@@ -1203,6 +1275,15 @@ class _Prepass(ast.NodeTransformer):
             out.append(s)
             i += 1
         return out
+
+    # ---- expressions
+    def visit_Compare(self, node):
+        self.generic_visit(node)
+        return _int_compare(node, self.nonneg)
+
+    def visit_Call(self, node):
+        self.generic_visit(node)
+        return _min_max_as_ifexp(node)
 
     def generic_visit(self, node):
         for fld, val in ast.iter_fields(node):
@@ -1312,10 +1393,529 @@ def _loop_as_extend(lp):
     return ast.copy_location(ast.Expr(value=ast.Call(func=ast.Attribute(value=lst, attr="extend", ctx=ast.Load()), args=[arg], keywords=[])), lp)
 
 
+def _scope_names(fn) -> set:
+    """parameters and names bound in fn (its own scope and, conservatively, nested function scopes; comprehension variables are scopes of their own)"""
+    a = fn.args
+    out = {p.arg for p in a.posonlyargs + a.args + a.kwonlyargs}
+    if a.vararg:
+        out.add(a.vararg.arg)
+    if a.kwarg:
+        out.add(a.kwarg.arg)
+
+    def rec(n):
+        for ch in ast.iter_child_nodes(n):
+            if isinstance(ch, (ast.ListComp, ast.SetComp, ast.DictComp, ast.GeneratorExp)):
+                continue
+            if isinstance(ch, ast.Name) and isinstance(ch.ctx, (ast.Store, ast.Del)):
+                out.add(ch.id)
+            elif isinstance(ch, (ast.FunctionDef, ast.AsyncFunctionDef, ast.ClassDef)):
+                out.add(ch.name)
+            elif isinstance(ch, ast.alias):
+                out.add((ch.asname or ch.name).split(".")[0])
+            elif isinstance(ch, ast.ExceptHandler) and ch.name:
+                out.add(ch.name)
+            elif isinstance(ch, ast.arg):
+                out.add(ch.arg)
+            rec(ch)
+    rec(fn)
+    return out
+
+
+def _helper_locals(helper) -> set:
+    a = helper.args
+    out = {p.arg for p in a.posonlyargs + a.args + a.kwonlyargs}
+    if a.vararg:
+        out.add(a.vararg.arg)
+    if a.kwarg:
+        out.add(a.kwarg.arg)
+
+    def rec(n):
+        for ch in ast.iter_child_nodes(n):
+            if isinstance(ch, (ast.ListComp, ast.SetComp, ast.DictComp, ast.GeneratorExp, ast.Lambda)):
+                continue   # own scope
+            if isinstance(ch, ast.Name) and isinstance(ch.ctx, (ast.Store, ast.Del)):
+                out.add(ch.id)
+            elif isinstance(ch, ast.alias):
+                out.add((ch.asname or ch.name).split(".")[0])
+            elif isinstance(ch, ast.ExceptHandler) and ch.name:
+                out.add(ch.name)
+            rec(ch)
+    rec(helper)
+    return out
+
+
+def _free_names(helper) -> set:
+    """names a helper reads that are neither its own locals nor bound by an enclosing comprehension / lambda inside it"""
+    loc = _helper_locals(helper)
+    out = set()
+
+    def rec(n, bound):
+        if isinstance(n, ast.Name):
+            if n.id not in bound:
+                out.add(n.id)
+            return
+        if isinstance(n, (ast.ListComp, ast.SetComp, ast.DictComp, ast.GeneratorExp)):
+            b = bound
+            for g in n.generators:
+                rec(g.iter, b)
+                b = b | _bound_names(g.target)
+                for c in g.ifs:
+                    rec(c, b)
+            if isinstance(n, ast.DictComp):
+                rec(n.key, b)
+                rec(n.value, b)
+            else:
+                rec(n.elt, b)
+            return
+        if isinstance(n, ast.Lambda):
+            a = n.args
+            names = {p.arg for p in a.posonlyargs + a.args + a.kwonlyargs} | ({a.vararg.arg} if a.vararg else set()) | ({a.kwarg.arg} if a.kwarg else set())
+            for d in list(a.defaults) + [d for d in a.kw_defaults if d is not None]:
+                rec(d, bound)
+            rec(n.body, bound | names)
+            return
+        for ch in ast.iter_child_nodes(n):
+            rec(ch, bound)
+    rec(helper, frozenset(loc))
+    return out
+
+
+def _defined_in(fn, helper) -> bool:
+    return any(isinstance(n, (ast.FunctionDef, ast.AsyncFunctionDef)) and n is not fn and Normaliser._same_def(n, helper) for n in ast.walk(fn))
+
+
+_SIMPLE_BAN = (ast.For, ast.While, ast.Try, ast.With, ast.Yield, ast.YieldFrom, ast.FunctionDef, ast.AsyncFunctionDef, ast.Raise, ast.Assert)
+
+
+def _is_simple_helper(helper) -> bool:
+    """the expression-level inliner (Normaliser.inline_ast) takes it"""
+    if any(x is not helper and isinstance(x, _SIMPLE_BAN) for x in ast.walk(helper)):
+        return False
+
+    def ok(stmts):
+        for st in stmts:
+            if isinstance(st, ast.Pass) or (isinstance(st, ast.Expr) and isinstance(st.value, ast.Constant)) or isinstance(st, ast.Return):
+                continue
+            if isinstance(st, ast.Assign) and len(st.targets) == 1 and isinstance(st.targets[0], ast.Name):
+                continue
+            if isinstance(st, ast.If) and ok(st.body) and ok(st.orelse):
+                continue
+            return False
+        return True
+    return ok(helper.body)
+
+
+def _single_exit(stmts, ret):
+    """the statements with every `return e` in tail position replaced by `ret = e` (continuation sunk into the arms of an if that returns); None when
+    a return sits inside a loop / try / with"""
+    out = []
+    stmts = list(stmts)
+    for i, st in enumerate(stmts):
+        has_ret = any(isinstance(x, ast.Return) for x in ast.walk(st)) and not isinstance(st, (ast.FunctionDef, ast.AsyncFunctionDef, ast.ClassDef))
+        if not has_ret:
+            out.append(st)
+            if isinstance(st, ast.Raise):
+                return out
+            continue
+        if isinstance(st, ast.Return):
+            out.append(ast.copy_location(ast.Assign(targets=[ast.Name(id=ret, ctx=ast.Store())], value=st.value or ast.Constant(value=None)), st))
+            return out
+        if isinstance(st, ast.If):
+            rest = stmts[i + 1:]
+            import copy
+            a_ = _single_exit(list(st.body) + copy.deepcopy(rest), ret)
+            b_ = _single_exit(list(st.orelse) + copy.deepcopy(rest), ret)
+            if a_ is None or b_ is None:
+                return None
+            out.append(ast.copy_location(ast.If(test=st.test, body=a_ or [ast.Pass()], orelse=b_), st))
+            return out
+        return None
+    out.append(ast.Assign(targets=[ast.Name(id=ret, ctx=ast.Store())], value=ast.Constant(value=None)))
+    return out
+
+
+class _Rename(ast.NodeTransformer):
+    def __init__(self, mapping):
+        self.mapping = mapping
+
+    def visit_Name(self, node):
+        if node.id in self.mapping:
+            return ast.copy_location(ast.Name(id=self.mapping[node.id], ctx=node.ctx), node)
+        return node
+
+    def visit_ExceptHandler(self, node):
+        self.generic_visit(node)
+        if node.name in self.mapping:
+            node.name = self.mapping[node.name]
+        return node
+
+
+def _unconditional_calls(expr):
+    """Call nodes of an expression that are evaluated whenever the expression is (not under a conditional arm, a lambda or a comprehension body), in order"""
+    out = []
+
+    def rec(n):
+        if isinstance(n, ast.Lambda):
+            return
+        if isinstance(n, ast.IfExp):
+            rec(n.test)
+            return
+        if isinstance(n, ast.BoolOp):
+            rec(n.values[0])
+            return
+        if isinstance(n, (ast.ListComp, ast.SetComp, ast.DictComp, ast.GeneratorExp)):
+            rec(n.generators[0].iter)
+            return
+        for ch in ast.iter_child_nodes(n):
+            rec(ch)
+        if isinstance(n, ast.Call):
+            out.append(n)
+    rec(expr)
+    return out
+
+
+class _ReplaceNode(ast.NodeTransformer):
+    def __init__(self, old, new):
+        self.old, self.new = old, new
+
+    def visit(self, node):
+        if node is self.old:
+            return self.new
+        return self.generic_visit(node)
+
+
+def inline_procedures(fn, helpers, methods):
+    """Statement-level inlining: a call of a helper that exists on this side only and is more than an expression (loops, several statements, raises) is
+    replaced by the helper's body -- parameters bound to the arguments, locals renamed apart, `return e` turned into a binding of the call's value --
+    placed right before the statement that contains the call.  Only calls that the statement evaluates unconditionally are taken; everything else stays
+    a call (and then simply does not match the other side)."""
+    if not helpers and not methods:
+        return fn
+    import copy
+    fn = copy.deepcopy(fn)
+    scope = _scope_names(fn)
+    counter = [0]
+
+    def candidate(call):
+        f = call.func
+        helper, bself = None, None
+        if isinstance(f, ast.Name) and f.id in helpers:
+            helper = helpers[f.id]
+            if f.id in scope and not _defined_in(fn, helper):
+                return None   # the name is rebound locally: not (necessarily) the helper
+        elif isinstance(f, ast.Attribute) and isinstance(f.value, ast.Name) and f.value.id in ("self", "cls") and f.attr in methods:
+            helper, bself = methods[f.attr], f.value
+        if helper is None or _is_simple_helper(helper):
+            return None
+        a = helper.args
+        if a.vararg or a.kwarg or a.kwonlyargs or a.posonlyargs or helper.decorator_list and bself is None:
+            return None
+        if bself is not None and any(not (isinstance(d, ast.Name) and d.id in ("classmethod",)) for d in helper.decorator_list):
+            return None
+        for x in ast.walk(helper):
+            if x is not helper and isinstance(x, (ast.Yield, ast.YieldFrom, ast.Await, ast.FunctionDef, ast.AsyncFunctionDef, ast.ClassDef, ast.Lambda, ast.Global, ast.Nonlocal, ast.Delete, ast.NamedExpr)):
+                return None
+        if any(isinstance(x, ast.Starred) for x in call.args) or any(k.arg is None for k in call.keywords):
+            return None
+        if not _defined_in(fn, helper) and (_free_names(helper) & scope):
+            return None
+        names = [p.arg for p in a.args]
+        given = {}
+        if bself is not None:
+            if not names:
+                return None
+            given[names[0]] = bself
+            names = names[1:]
+        if len(call.args) > len(names):
+            return None
+        for p, v in zip(names, call.args):
+            given[p] = v
+        for k in call.keywords:
+            if k.arg not in names or k.arg in given:
+                return None
+            given[k.arg] = k.value
+        defaults = dict(zip([p.arg for p in a.args][len(a.args) - len(a.defaults):], a.defaults))
+        for p in names:
+            if p not in given:
+                d = defaults.get(p)
+                if d is None or not (isinstance(d, ast.Constant) or (isinstance(d, (ast.Name, ast.Attribute)) and Normaliser._root(d) not in scope)):
+                    return None
+                given[p] = d
+        return helper, given, [p.arg for p in a.args]
+
+    def expand(call, depth):
+        """(statements, name holding the value) or None"""
+        c = candidate(call)
+        if c is None:
+            return None
+        helper, given, order = c
+        counter[0] += 1
+        pre = "_inl%d_" % counter[0]
+        mapping = {nm: pre + nm for nm in _helper_locals(helper)}
+        ret = pre + "return"
+        body = _single_exit(copy.deepcopy(_body(helper)), ret)
+        if body is None:
+            return None
+        body = [_Rename(mapping).visit(st) for st in body]
+        binds = [ast.Assign(targets=[ast.Name(id=mapping[p], ctx=ast.Store())], value=given[p]) for p in order]
+        stmts = binds + body
+        for st in stmts:
+            ast.fix_missing_locations(st)
+        if depth < 3:
+            stmts = do_block(stmts, depth + 1)
+        return stmts, ret
+
+    def expand_in(exprs, depth):
+        """inline the unconditional helper calls of the given expression holders [(node, field)]; returns the statements to put in front"""
+        front = []
+        for holder, fld in exprs:
+            for _ in range(8):
+                e = getattr(holder, fld)
+                if e is None:
+                    break
+                done = False
+                for call in _unconditional_calls(e):
+                    r = expand(call, depth)
+                    if r is None:
+                        continue
+                    stmts, ret = r
+                    front.extend(stmts)
+                    new = ast.Name(id=ret, ctx=ast.Load())
+                    setattr(holder, fld, new if e is call else _ReplaceNode(call, new).visit(e))
+                    done = True
+                    break
+                if not done:
+                    break
+        return front
+
+    def do_block(stmts, depth):
+        out = []
+        for st in stmts:
+            if isinstance(st, (ast.FunctionDef, ast.AsyncFunctionDef, ast.ClassDef)):
+                out.append(st)
+                continue
+            front = []
+            if isinstance(st, (ast.Assign, ast.AugAssign, ast.AnnAssign, ast.Expr, ast.Return)):
+                front = expand_in([(st, "value")], depth)
+            elif isinstance(st, ast.If):
+                front = expand_in([(st, "test")], depth)
+            elif isinstance(st, ast.For):
+                front = expand_in([(st, "iter")], depth)
+            for fld in ("body", "orelse", "finalbody"):
+                lst = getattr(st, fld, None)
+                if isinstance(lst, list) and lst and isinstance(lst[0], ast.stmt):
+                    setattr(st, fld, do_block(lst, depth))
+            if isinstance(st, ast.Try):
+                for h in st.handlers:
+                    h.body = do_block(h.body, depth)
+            out.extend(front)
+            if front and isinstance(st, ast.Expr) and isinstance(st.value, ast.Name) and st.value.id.startswith("_inl") and st.value.id.endswith("_return"):
+                continue   # the call was the whole statement: its value is not used
+            out.append(st)
+        return out
+
+    fn.body = do_block(fn.body, 0)
+    return fn
+
+
+def _setdefault_as_if(s):
+    """`d.setdefault(k, v)` as a statement  ->  `if k not in d: d[k] = v`"""
+    if isinstance(s, ast.Expr) and isinstance(s.value, ast.Call) and isinstance(s.value.func, ast.Attribute) and s.value.func.attr == "setdefault" \
+            and len(s.value.args) == 2 and not s.value.keywords and isinstance(s.value.func.value, ast.Name):
+        d, (k, v) = s.value.func.value, s.value.args
+        tgt = ast.Subscript(value=ast.Name(id=d.id, ctx=ast.Load()), slice=k, ctx=ast.Store())
+        new = ast.If(test=ast.Compare(left=k, ops=[ast.NotIn()], comparators=[ast.Name(id=d.id, ctx=ast.Load())]), body=[ast.Assign(targets=[tgt], value=v)], orelse=[])
+        return ast.fix_missing_locations(ast.copy_location(new, s))
+    return s
+
+
+def _merge_if_arms(s):
+    """`if t: X.m(a) else: X.m(b)` -> `X.m(a if t else b)`;  `if t: X[k] = a else: X[k] = b` -> `X[k] = a if t else b`  (one statement per arm, same shape)"""
+    if not (isinstance(s, ast.If) and len(s.body) == 1 and len(s.orelse) == 1):
+        return s
+    a, b = s.body[0], s.orelse[0]
+    if isinstance(a, ast.Expr) and isinstance(b, ast.Expr) and isinstance(a.value, ast.Call) and isinstance(b.value, ast.Call):
+        ca, cb = a.value, b.value
+        if ast.dump(ca.func) == ast.dump(cb.func) and len(ca.args) == len(cb.args) and not any(isinstance(x, ast.Starred) for x in ca.args + cb.args) \
+                and [ast.dump(k) for k in ca.keywords] == [ast.dump(k) for k in cb.keywords] and isinstance(ca.func, ast.Attribute):
+            diff = [i for i, (x, y) in enumerate(zip(ca.args, cb.args)) if ast.dump(x) != ast.dump(y)]
+            if len(diff) == 1 and diff[0] == 0 or (len(diff) == 1 and all(isinstance(x, (ast.Name, ast.Constant)) for x in ca.args[:diff[0]])):
+                i = diff[0]
+                args = list(ca.args)
+                args[i] = ast.IfExp(test=s.test, body=ca.args[i], orelse=cb.args[i])
+                return ast.fix_missing_locations(ast.copy_location(ast.Expr(value=ast.Call(func=ca.func, args=args, keywords=ca.keywords)), s))
+    if isinstance(a, ast.Assign) and isinstance(b, ast.Assign) and len(a.targets) == 1 and len(b.targets) == 1 \
+            and isinstance(a.targets[0], (ast.Subscript, ast.Attribute)) and ast.dump(a.targets[0]) == ast.dump(b.targets[0]):
+        return ast.fix_missing_locations(ast.copy_location(ast.Assign(targets=a.targets, value=ast.IfExp(test=s.test, body=a.value, orelse=b.value)), s))
+    return s
+
+
+def _min_max_as_ifexp(node):
+    """min(a, b[, key=k]) / max(a, b[, key=k]) with exactly two positional arguments: the conditional expression the builtin computes"""
+    f = node.func
+    if not (isinstance(f, ast.Name) and f.id in ("min", "max") and len(node.args) == 2 and not any(isinstance(x, ast.Starred) for x in node.args)):
+        return node
+    if any(k.arg != "key" for k in node.keywords) or len(node.keywords) > 1:
+        return node
+    a, b = node.args
+    import copy
+    ka, kb = copy.deepcopy(a), copy.deepcopy(b)
+    if node.keywords:
+        key = node.keywords[0].value
+        ka = ast.Call(func=key, args=[ka], keywords=[])
+        kb = ast.Call(func=copy.deepcopy(key), args=[kb], keywords=[])
+    # min: the later argument wins only when strictly smaller; max: only when strictly greater
+    test = ast.Compare(left=kb, ops=[ast.Lt()], comparators=[ka]) if f.id == "min" else ast.Compare(left=ka, ops=[ast.Lt()], comparators=[kb])
+    return ast.fix_missing_locations(ast.copy_location(ast.IfExp(test=test, body=b, orelse=a), node))
+
+
+_INT_FUNCS = {"len", "int"}
+_INT_METHODS = {"count", "index", "find", "rfind", "bit_length"}
+_NONNEG_METHODS = {"count", "index"}
+
+
+def _int_evident(e, nonneg) -> bool:
+    if isinstance(e, ast.Constant):
+        return isinstance(e.value, int) and not isinstance(e.value, bool)
+    if isinstance(e, ast.Name):
+        return e.id in nonneg
+    if isinstance(e, ast.Call):
+        if isinstance(e.func, ast.Name) and e.func.id in _INT_FUNCS and len(e.args) == 1 and not e.keywords:
+            return True
+        return isinstance(e.func, ast.Attribute) and e.func.attr in _INT_METHODS
+    if isinstance(e, ast.BinOp) and isinstance(e.op, (ast.Add, ast.Sub, ast.Mult)):
+        return _int_evident(e.left, nonneg) and _int_evident(e.right, nonneg)
+    if isinstance(e, ast.UnaryOp) and isinstance(e.op, ast.USub):
+        return _int_evident(e.operand, nonneg)
+    return False
+
+
+def _nonneg_evident(e, nonneg) -> bool:
+    if isinstance(e, ast.Constant):
+        return isinstance(e.value, int) and not isinstance(e.value, bool) and e.value >= 0
+    if isinstance(e, ast.Name):
+        return e.id in nonneg
+    if isinstance(e, ast.Call):
+        if isinstance(e.func, ast.Name) and e.func.id == "len" and len(e.args) == 1 and not e.keywords:
+            return True
+        return isinstance(e.func, ast.Attribute) and e.func.attr in _NONNEG_METHODS
+    if isinstance(e, ast.BinOp) and isinstance(e.op, (ast.Add, ast.Mult)):
+        return _nonneg_evident(e.left, nonneg) and _nonneg_evident(e.right, nonneg)
+    return False
+
+
+def _const_int(e):
+    if isinstance(e, ast.Constant) and isinstance(e.value, int) and not isinstance(e.value, bool):
+        return e.value
+    if isinstance(e, ast.UnaryOp) and isinstance(e.op, ast.USub) and isinstance(e.operand, ast.Constant) and isinstance(e.operand.value, int) and not isinstance(e.operand.value, bool):
+        return -e.operand.value
+    return None
+
+
+def _int_compare(node, nonneg):
+    """an ordering comparison of two evidently integer values in canonical form: only `<` (under `not` where needed), a constant on the right,
+    `n < 1` for an evidently non-negative n is `n == 0`.  Integers are totally ordered, so `a <= b` is `not (b < a)`."""
+    if len(node.ops) != 1 or not isinstance(node.ops[0], (ast.Lt, ast.LtE, ast.Gt, ast.GtE)):
+        return node
+    a, b = node.left, node.comparators[0]
+    if not (_int_evident(a, nonneg) and _int_evident(b, nonneg)):
+        return node
+    op = type(node.ops[0])
+    neg = False
+    if op is ast.Gt:
+        a, b = b, a
+    elif op is ast.GtE:
+        neg = True                      # a >= b  ==  not (a < b)
+    elif op is ast.LtE:
+        a, b, neg = b, a, True          # a <= b  ==  not (b < a)
+    # now:  [not] (a < b)
+    ca, cb = _const_int(a), _const_int(b)
+    if ca is not None and cb is None:
+        # c < x  ==  not (x < c + 1)
+        a, b, neg = b, ast.Constant(value=ca + 1), not neg
+        cb = ca + 1
+    core = ast.Compare(left=a, ops=[ast.Lt()], comparators=[b])
+    if cb is not None and _const_int(a) is None and _nonneg_evident(a, nonneg):
+        if cb == 1:
+            core = ast.Compare(left=a, ops=[ast.Eq()], comparators=[ast.Constant(value=0)])
+    out = ast.UnaryOp(op=ast.Not(), operand=core) if neg else core
+    return ast.fix_missing_locations(ast.copy_location(out, node))
+
+
+def _enumerate_indices(fn) -> frozenset:
+    """names bound only as the index of `for i, x in enumerate(seq)` loops / comprehension clauses (no start argument) of fn"""
+    stores, good = {}, set()
+    for n in ast.walk(fn):
+        if isinstance(n, ast.Name) and isinstance(n.ctx, (ast.Store, ast.Del)):
+            stores[n.id] = stores.get(n.id, 0) + 1
+        elif isinstance(n, ast.arg):
+            stores[n.arg] = stores.get(n.arg, 0) + 10
+    cand = {}
+    for n in ast.walk(fn):
+        tgt, it = None, None
+        if isinstance(n, ast.For):
+            tgt, it = n.target, n.iter
+        elif isinstance(n, ast.comprehension):
+            tgt, it = n.target, n.iter
+        if tgt is None:
+            continue
+        if isinstance(tgt, ast.Tuple) and len(tgt.elts) == 2 and isinstance(tgt.elts[0], ast.Name) and isinstance(it, ast.Call) and isinstance(it.func, ast.Name) \
+                and it.func.id == "enumerate" and len(it.args) == 1 and not it.keywords:
+            cand[tgt.elts[0].id] = cand.get(tgt.elts[0].id, 0) + 1
+    for nm, k in cand.items():
+        if stores.get(nm) == k and nm != "enumerate":
+            good.add(nm)
+    if any(isinstance(n, ast.Name) and n.id == "enumerate" and isinstance(n.ctx, ast.Store) for n in ast.walk(fn)):
+        return frozenset()
+    return frozenset(good)
+
+
+def _leaking_loop_names(fn) -> frozenset:
+    """targets of for loops that are read somewhere outside the body of a loop binding them (after the loop, in its else part, in a nested function)"""
+    targets = set()
+    for n in ast.walk(fn):
+        if isinstance(n, ast.For):
+            targets |= _bound_names(n.target)
+    leaking = set()
+
+    def rec(n, inside):
+        if isinstance(n, ast.Name):
+            if isinstance(n.ctx, ast.Load) and n.id in targets and n.id not in inside:
+                leaking.add(n.id)
+            return
+        if isinstance(n, ast.For):
+            rec(n.iter, inside)
+            rec(n.target, inside)
+            b = inside | _bound_names(n.target)
+            for st in n.body:
+                rec(st, b)
+            for st in n.orelse:
+                rec(st, inside)
+            return
+        if isinstance(n, (ast.ListComp, ast.SetComp, ast.DictComp, ast.GeneratorExp)):
+            b = inside
+            for g in n.generators:
+                rec(g.iter, b)
+                b = b | _bound_names(g.target)
+                for c in g.ifs:
+                    rec(c, b)
+            for part in ([n.key, n.value] if isinstance(n, ast.DictComp) else [n.elt]):
+                rec(part, b)
+            return
+        if isinstance(n, (ast.FunctionDef, ast.AsyncFunctionDef, ast.Lambda, ast.ClassDef)) and n is not fn:
+            for ch in ast.iter_child_nodes(n):
+                rec(ch, frozenset())
+            return
+        for ch in ast.iter_child_nodes(n):
+            rec(ch, inside)
+    rec(fn, frozenset())
+    return frozenset(leaking)
+
+
 def prepass(fn):
     import copy
     fn2 = copy.deepcopy(fn)
-    _Prepass().generic_visit(fn2)
+    _Prepass(_enumerate_indices(fn2), _leaking_loop_names(fn2)).generic_visit(fn2)
     return fn2
 
 
@@ -1402,4 +2002,20 @@ def normal_form(fn, consts=None, helpers=None, methods=None):
            defaults, tuple(nz.exo(d, {}) for d in fn.decorator_list))
     eff, _ = nz.block(_body(fn), {}, ())
     is_gen = any(isinstance(x, (ast.Yield, ast.YieldFrom)) for x in ast.walk(fn))
-    return (sig, tuple(strip_tail(eff, "return")) if not is_gen else tuple(eff))
+    return (sig, _renumber(tuple(strip_tail(eff, "return")) if not is_gen else tuple(eff)))
+
+
+def _renumber(form):
+    """numbered variables are renumbered in the order of their first occurrence in the finished form (the order in which the normaliser met them depends
+    on how often it walked a shared continuation)"""
+    mapping = {}
+
+    def rec(x):
+        if isinstance(x, tuple):
+            if len(x) == 2 and x[0] == "v" and isinstance(x[1], int):
+                if x[1] not in mapping:
+                    mapping[x[1]] = len(mapping)
+                return ("v", mapping[x[1]])
+            return tuple(rec(y) for y in x)
+        return x
+    return rec(form)
